@@ -83,7 +83,7 @@ class RandomKaryPartition(Partition):
         parent.update_children(new_nodes)
 
         if newlayer:
-            self.node_list.append(new_nodes)
+            self.node_list.append(list(new_nodes))
             self.depth += 1
         else:
             self.node_list[parent.get_depth() + 1] += new_nodes
